@@ -99,7 +99,7 @@ fn run_inner<F: Flavour>(sc: &HistSc, verdict: Verdict, stats: &mut Stats, solo:
     }
     let mut failed_before = false;
     for (i, op) in sc.ops.iter().enumerate() {
-        solo.set_budget(200_000);
+        solo.set_budget(200_000 + 16 * (world.n() as u64) * (world.n() as u64));
         let before = if !F::DIRECTED && verdict == Verdict::Contract {
             match caught(|| (0..world.n()).map(|u| world.lists(u).0).collect::<Vec<_>>()) {
                 Caught::Ok(v) => Some(v),
@@ -394,6 +394,65 @@ impl Hist {
 }
 
 impl Hist {
+    /// A hub with 1030-2100 incident edges - several hundred distinct neighbours, some of them
+    /// joined by two or three parallel edges - then a handful of removals and lookups around it.
+    fn generate_mega_hub(&self, rng: &mut Rng) -> HistSc {
+        let fl = self.flavours();
+        let mut flavour = fl[rng.below(fl.len())].to_string();
+        if let Some(f) = crate::runner::only_flavour() {
+            if fl.contains(&f.as_str()) {
+                flavour = f;
+            }
+        }
+        let spokes = rng.range(400, 700);
+        let n = spokes + 1;
+        let mut next_edge = 100;
+        let mut initial = Vec::new();
+        let target = *rng.pick(&[1030usize, 1100, 2100]);
+        let mut doubled = Vec::new();
+        while initial.len() < target {
+            let x = 1 + rng.below(spokes);
+            next_edge += 1;
+            if initial.iter().any(|(a, b, _): &(usize, usize, u64)| *a == x || *b == x) {
+                doubled.push(x);
+            }
+            if rng.coin() {
+                initial.push((0, x, next_edge));
+            } else {
+                initial.push((x, 0, next_edge));
+            }
+        }
+        let h = crate::model::Prov::Own;
+        let mut ops = Vec::new();
+        for _ in 0..rng.range(4, 14) {
+            let x = if !doubled.is_empty() && rng.chance(3, 4) { *rng.pick(&doubled) } else { 1 + rng.below(spokes) };
+            ops.push(match rng.below(8) {
+                0..=2 => Op::Disconnect { u: 0, k: x, h },
+                3 => Op::Disconnect { u: x, k: 0, h },
+                4 => Op::IsConnected { u: 0, k: x },
+                5 => Op::FindOut { u: 0, k: x },
+                6 => {
+                    next_edge += 1;
+                    Op::TryConnect { u: 0, v: x, e: next_edge, h }
+                }
+                _ => Op::IsConnected { u: x, k: 0 },
+            });
+        }
+        if rng.chance(1, 3) {
+            ops.push(Op::Isolate { u: 0, h });
+        }
+        HistSc {
+            flavour,
+            prios: (0..n).map(|_| rng.below(4) as u32).collect(),
+            in_graph: false,
+            hash_seed: rng.next_u64(),
+            initial,
+            ops,
+            monitor: *rng.pick(&[0u8, 2, 2]),
+            check_every: 1000,
+        }
+    }
+
     /// A pile: 256-330 parallel edges between one pair (both orientations mixed), then as many
     /// removals of that pair, with lookups in between - counts per neighbour that wrap or saturate.
     fn generate_pile(&self, rng: &mut Rng) -> HistSc {
@@ -466,6 +525,9 @@ impl Engine for Hist {
         }
         if rng.chance(1, 3000) {
             return self.generate_pile(rng);
+        }
+        if rng.chance(1, 12_000) {
+            return self.generate_mega_hub(rng);
         }
         let fl = self.flavours();
         let mut flavour = fl[rng.below(fl.len())].to_string();
